@@ -40,6 +40,12 @@ def load_catalogue():
                 m = json.loads(mf.read_text())
                 pid = m["breaks_property"]
                 cat.append({"id": m["id"], "kind": "break", "props": [pid], "edits": [], "patch": str(pf), "rules": {pid: m.get("caught_by_rules_of_target_property", [])}, "canary": False, "note": m.get("change", "")})
+    rd = VERIF / "refactors"
+    if rd.is_dir():
+        for d in sorted(rd.iterdir()):
+            pf = d / "patch.diff"
+            if pf.exists():
+                cat.append({"id": f"refactor-{d.name}", "kind": "preserve", "props": [], "edits": [], "patch": str(pf), "rules": {}, "canary": False, "note": "behaviour-preserving refactoring written by an independent sub-agent"})
     return cat
 
 
